@@ -166,6 +166,53 @@ fn vanishing_program(ch: &mut Ch) -> String {
     }
 }
 
+/// A directly recursive function that also calls a sibling of *another type* defined after it,
+/// the sibling reached only after at least one recursive call; unrelated definitions around.
+fn recursive_sibling_program(ch: &mut Ch) -> String {
+    let n = 1 + ch.pick(4);
+    let k = ch.pick(3);
+    let filler = |ch: &mut Ch, i: usize| match ch.pick(3) {
+        0 => format!("u{i} : int = {}\n", ch.pick(9)),
+        1 => format!("u{i} : (int -> int) = (z{i} : int) => z{i} + {}\n", ch.pick(5)),
+        _ => format!("u{i} : bool = {}\n", ["true", "false"][ch.pick(2)]),
+    };
+    let mut s = String::new();
+    if ch.chance(1, 3) {
+        s.push_str(&filler(ch, 0));
+    }
+    let int_result = ch.chance(1, 2);
+    if int_result {
+        // f : int -> int calls g : int -> bool
+        s.push_str(&format!("f : (int -> int) = (n : int) => if n <= 0 then {} else (if g n then 1 else 0) + f (n - 1)\n", ch.pick(3)));
+        if ch.chance(1, 3) {
+            s.push_str(&filler(ch, 1));
+        }
+        s.push_str(&format!("g : (int -> bool) = (m : int) => m > {k}\n"));
+    } else {
+        // f : int -> bool calls g : int -> int
+        s.push_str(&format!("f : (int -> bool) = (n : int) => if n <= 0 then {} else if g n > {k} then f (n - 1) else {}\n", ["true", "false"][ch.pick(2)], ["true", "false"][ch.pick(2)]));
+        if ch.chance(1, 3) {
+            s.push_str(&filler(ch, 1));
+        }
+        s.push_str("g : (int -> int) = (m : int) => m + 1\n");
+    }
+    if ch.chance(1, 3) {
+        s.push_str(&filler(ch, 2));
+    }
+    s.push_str(&match ch.pick(3) {
+        0 => format!("f {n}"),
+        1 => format!("r = f {n}\nr"),
+        _ => format!("(h : int -> {}) => h (f {n})", if int_result { "int" } else { "bool" }).replace("(h : int -> int) => h", "((h : int) => h)").replace("(h : int -> bool) => h", "((h : bool) => h)"),
+    });
+    s
+}
+
+fn recursive_sibling_case(ctx: &Ctx, ch: &mut Ch) -> Outcome {
+    let text = recursive_sibling_program(ch);
+    ctx.class("directed: recursive function calling a later sibling of another type");
+    check_text(ctx, &text, crate::checks::c02::step_budget(ctx.tier))
+}
+
 fn vanishing_case(ctx: &Ctx, ch: &mut Ch) -> Outcome {
     let text = vanishing_program(ch);
     ctx.class("directed: un-annotated parameter against a type that mentions a later binder which disappears under normalisation");
@@ -286,7 +333,7 @@ pub fn def(tier: Tier) -> CheckDef {
     CheckDef {
         id: "C04",
         level: "exploration",
-        rule: "directed programs in which an un-annotated parameter meets a variable whose written type mentions a later binder that disappears under normalisation (the function then applied at the right and at a wrong type), and type-directed generated programs (plain, annotation-erased, and perturbed by one type-breaking mutation or variable swap - the accepted ones count) over result types int, bool, type, non-dependent and dependent function types, types produced by type-level functions and conditionals, and types mentioning definition groups; each accepted program is run with gram's `step` loop and the value v and the reported type T are compared: by shape (int => literal, bool => true/false, function type => function with the same implicit flag, type => a type former) and by the independent checker (R-core infers a type for v, which must be convertible with T); plus (exhaustive) an identity function annotated `(b : bool) -> (x : int) -> T1 -> T2` for every pair of small type expressions T1, T2 and applied at constants: conversion between computed types put to use; non-trivial = T is not a bare base type, or evaluation took >= 5 steps; distinct by text",
+        rule: "directed groups in which a directly recursive function calls a later sibling of another type (reached after at least one recursive call, unrelated definitions around), directed programs in which an un-annotated parameter meets a variable whose written type mentions a later binder that disappears under normalisation (the function then applied at the right and at a wrong type), and type-directed generated programs (plain, annotation-erased, and perturbed by one type-breaking mutation or variable swap - the accepted ones count) over result types int, bool, type, non-dependent and dependent function types, types produced by type-level functions and conditionals, and types mentioning definition groups; each accepted program is run with gram's `step` loop and the value v and the reported type T are compared: by shape (int => literal, bool => true/false, function type => function with the same implicit flag, type => a type former) and by the independent checker (R-core infers a type for v, which must be convertible with T); plus (exhaustive) an identity function annotated `(b : bool) -> (x : int) -> T1 -> T2` for every pair of small type expressions T1, T2 and applied at constants: conversion between computed types put to use; non-trivial = T is not a bare base type, or evaluation took >= 5 steps; distinct by text",
         assumptions: vec!["values or types that still contain unresolved holes are outside the explicit checker's domain (counted, not judged)"],
         idle_limit_s: 60,
         needs_cli: false,
@@ -312,6 +359,15 @@ pub fn def(tier: Tier) -> CheckDef {
                 rounds: 1,
                 run: Box::new(|ctx, _| coercions_part(ctx)),
                 replay: None,
+            },
+            Part {
+                name: "recursive-siblings",
+                rounds: 1,
+                run: Box::new(|ctx, r| ctx.prop("recursive-siblings", r, 150, 30, recursive_sibling_case)),
+                replay: Some(Box::new(|ctx, inp| match inp {
+                    ReplayInput::Choices(c) => recursive_sibling_case(ctx, &mut Ch::new(c)),
+                    _ => Err(Failure::new("this part replays from choices", "")),
+                })),
             },
             Part {
                 name: "vanishing-dependency",
